@@ -579,6 +579,18 @@ impl TDigestMut {
         };
         check_non_nan(min, "min")?;
         check_non_nan(max, "max")?;
+        // Every announced centroid and buffered value must be present before space is reserved
+        // for them.
+        let (value_size, weight_size) = if is_f32 {
+            (size_of::<f32>() as u64, size_of::<u32>() as u64)
+        } else {
+            (size_of::<f64>() as u64, size_of::<u64>() as u64)
+        };
+        let payload_size =
+            num_centroids as u64 * (value_size + weight_size) + num_buffered as u64 * value_size;
+        if (cursor.remaining() as u64) < payload_size {
+            return Err(Error::insufficient_data("centroids and buffered values"));
+        }
         let mut centroids = Vec::with_capacity(num_centroids);
         let mut centroids_weight = 0u64;
         for _ in 0..num_centroids {
@@ -653,6 +665,14 @@ impl TDigestMut {
                 }
                 let num_centroids =
                     cursor.read_u32_be().map_err(make_error("num_centroids"))? as usize;
+                // Every announced centroid must be present before space is reserved for them.
+                let payload_size = num_centroids as u64 * 2 * size_of::<f64>() as u64;
+                if (cursor.remaining() as u64) < payload_size {
+                    return Err(Error::insufficient_data_of(
+                        "compat double format",
+                        "centroids",
+                    ));
+                }
                 let mut total_weight = 0u64;
                 let mut centroids = Vec::with_capacity(num_centroids);
                 for _ in 0..num_centroids {
